@@ -575,6 +575,14 @@ func RunHistory(ini Init, family string, withDump bool, next func(in *inst, step
 			case rNoReturn:
 				cj.Feat["noreturn"]++
 			}
+			if op.K == "Update" && (c == rOk || c == rErr) {
+				// shape of the known finding `prune_keeps_late_fork`: after finalization moved, the array still holds a node
+				// that does not descend from its first node (it was inserted after the new anchor, on another branch)
+				if n := in.strayNodes(); n > 0 && cj.Feat["late_fork_step"] == 0 {
+					cj.Feat["late_fork_step"] = i + 1
+					cj.Feat["late_fork_nodes"] = n
+				}
+			}
 			if op.K == "Update" && len(log) > 0 {
 				cj.Feat["prune_calls"] += len(log)
 				if c == rOk {
@@ -590,6 +598,29 @@ func RunHistory(ini Init, family string, withDump bool, next func(in *inst, step
 	}
 	coq := fmt.Sprintf("mkCase %s %s [\n    %s]", ini.Coq(), cj.InitGo, strings.Join(steps, ";\n    "))
 	return Case{Coq: coq, Kind: family, JSON: cj}, cj
+}
+
+// strayNodes counts the nodes of the array that do not reach its first node along transition parents,
+// once the array has been pruned at least once (offset > 0).
+func (in *inst) strayNodes() int {
+	d, ok := proto.VerifDumpArray(in.graph)
+	if !ok || d.IndexOffset == 0 || len(d.Nodes) == 0 {
+		return 0
+	}
+	off := uint64(d.IndexOffset)
+	reach := make([]bool, len(d.Nodes))
+	reach[0] = true
+	n := 0
+	for i := 1; i < len(d.Nodes); i++ {
+		tp := uint64(d.Nodes[i].TransitionParent)
+		if d.Nodes[i].TransitionParent != proto.NONE && tp >= off && tp-off < uint64(i) {
+			reach[i] = reach[tp-off]
+		}
+		if !reach[i] {
+			n++
+		}
+	}
+	return n
 }
 
 // ---------- replay ----------
